@@ -29,12 +29,13 @@ Proved (all histories, no length bound):
   `requirements_of_latest` (+ `requirements_order`), `mentioned_is_known`, `never_added_not_found`.
 * "ascending order" of a listing (clause 2): per listing `listing_ascending` (non-npm, given
   C12's `OrderLawful`; PyPI unconditional: `listing_ascending_pypi`), `listing_npm_ordered` (npm
-  arrangement as coded, unconditional), `listing_unique` (the listing is determined by the map
-  alone); over whole histories `history_listing_ascending` (**partial**: `HistoryLawful`, a
-  Maven-only condition, finding F-C14-mvn-intrans; refuted without it:
-  `maven_ascending_statement_false`) and `history_listing_npm_partial` (npm order **as stated**,
-  **partial**: `HistoryTagsExact`, finding F-C14-latest-substr; refuted without it:
-  `npm_ascending_statement_false`). Both findings are C12's, reached through `AddVersion`.
+  arrangement as stated: the version *tagged* `latest` last; unconditional), `listing_unique`
+  (the listing is determined by the map alone); over whole histories `history_listing_ascending`
+  (**partial**: `HistoryLawful`, a Maven-only condition, finding F-C14-mvn-intrans = C12's,
+  reached through `AddVersion`; refuted without it: `maven_ascending_statement_false`) and
+  `history_listing_npm` / `npm_ascending_statement` (npm order as stated, **full** since the
+  repair of F-C14-latest-substr = F-C12-latest-substr; it used to need `HistoryTagsExact`;
+  regression: `npm_regression_history`).
 * `matching_is_match_of_listing`: `MatchingVersions` is `MatchRequirement` over the listing
   (so C12's theorems describe it).
 -/
@@ -325,10 +326,10 @@ theorem listing_ascending_pypi {sp : Spec} {p : PackageKey} {vs : List RVersion}
   rwa [hp] at this
 
 /-- Clause 2, "ascending", npm packages: a listing is in the npm arrangement of C12
-(ascending, the version whose tags contain `latest` last unless it is a prerelease while
-releases exist). Unconditional. -/
+(ascending, the version tagged `latest` — one of its comma-separated tags is `latest` — last
+unless it is a prerelease while releases exist). Unconditional. -/
 theorem listing_npm_ordered {sp : Spec} {p : PackageKey} {vs : List RVersion} (hl : IsListing sp p vs)
-    (hp : p.sys = .npm) : vs = [] ∨ ∃ l, l ~ vs ∧ C12.NpmOrdered C12.codeLatest l vs := by
+    (hp : p.sys = .npm) : vs = [] ∨ ∃ l, l ~ vs ∧ C12.NpmOrdered C12.exactLatest l vs := by
   rcases hl.ordered with rfl | ⟨l, hs⟩
   · exact Or.inl rfl
   · have p' := sortVersions_perm_input hs
@@ -336,7 +337,7 @@ theorem listing_npm_ordered {sp : Spec} {p : PackageKey} {vs : List RVersion} (h
       have := (hl.exactly v).mp (p'.mem_iff.mpr hv)
       rw [this.1, hp]
     rw [C12.sortVersions_npm hsys] at hs
-    exact Or.inr ⟨l, p'.symm, C12.npm_order_as_coded hs⟩
+    exact Or.inr ⟨l, p'.symm, C12.npm_order hs⟩
 
 theorem nodup_of_nodup_map {α β : Type} {f : α → β} {l : List α} (h : (l.map f).Nodup) : l.Nodup :=
   List.Pairwise.of_map f (fun _ _ hne e => hne (by rw [e])) h
@@ -411,11 +412,6 @@ ever added for it. True for every NPM / PyPI / default-system package (`historyL
 for Maven it excludes the intransitive shapes (finding F-C14-mvn-intrans = F-C12-mvn-intrans). -/
 def HistoryLawful (ops : List Op) : Prop := ∀ p : PackageKey, C12.OrderLawful p.sys.semver (addedRecords ops p)
 
-/-- **Hypothesis `HistoryTagsExact`**: in every added record, "latest" occurs in the tag string
-only as a whole tag (finding F-C14-latest-substr = F-C12-latest-substr). -/
-def HistoryTagsExact (ops : List Op) : Prop :=
-  ∀ p : PackageKey, p.sys = .npm → C12.TagsExact (addedRecords ops p)
-
 theorem historyLawful_non_maven (ops : List Op) (p : PackageKey) (hp : p.sys ≠ .maven) :
     C12.OrderLawful p.sys.semver (addedRecords ops p) := by
   cases hs : p.sys with
@@ -459,19 +455,16 @@ theorem history_listing_ascending (H : HistoryLawful ops) {p : PackageKey} {vs :
   listing_ascending (listing_of_versions ops hret hv) hn ((H p).of_subset (listing_subset_added ops hret hv))
 
 /-- **Clause 2, "ascending", whole histories, npm packages, as the property states it**
-(the version *tagged* latest last): partial, `HistoryTagsExact`. -/
-theorem history_listing_npm_partial (H : HistoryTagsExact ops) {p : PackageKey} {vs : List RVersion}
+(the version *tagged* latest last): full — no hypothesis on the tags (before the repair of
+F-C14-latest-substr this needed `HistoryTagsExact`). -/
+theorem history_listing_npm {p : PackageKey} {vs : List RVersion}
     (hp : p.sys = .npm) (hv : versions (run LocalClient.new ops).1 p = .versions vs) :
-    vs = [] ∨ ∃ l, l ~ vs ∧ C12.NpmOrdered C12.exactLatest l vs := by
-  rcases listing_npm_ordered (listing_of_versions ops hret hv) hp with h | ⟨l, hl, ho⟩
-  · exact Or.inl h
-  · refine Or.inr ⟨l, hl, ho.congr ?_⟩
-    intro v hm
-    exact H p hp v (listing_subset_added ops hret hv v (hl.mem_iff.mp hm))
+    vs = [] ∨ ∃ l, l ~ vs ∧ C12.NpmOrdered C12.exactLatest l vs :=
+  listing_npm_ordered (listing_of_versions ops hret hv) hp
 
 end ascending
 
-/-- Clause 2 "ascending" for npm **as stated**, without the hypothesis. -/
+/-- Clause 2 "ascending" for npm **as stated**. -/
 def NpmAscendingStatement : Prop :=
   ∀ (ops : List Op) (p : PackageKey) (vs : List RVersion), AddsReturn LocalClient.new ops → p.sys = .npm →
     versions (run LocalClient.new ops).1 p = .versions vs →
@@ -484,17 +477,26 @@ def MavenAscendingStatement : Prop :=
 
 def pkP (sys : RSystem) : PackageKey := { sys := sys, name := [112] }
 
-/-- Adding `1.0.0 #notlatest` then `2.0.0` lists `[2.0.0, 1.0.0]` (finding F-C14-latest-substr). -/
-theorem npm_ascending_statement_false : ¬ NpmAscendingStatement := by
-  intro h
-  have hv : versions (run LocalClient.new [.add C12.w1 [], .add C12.w2 []]).1 (pkP .npm) = .versions [C12.w2, C12.w1] := by
-    decide +kernel
-  have hr : AddsReturn LocalClient.new [.add C12.w1 [], .add C12.w2 []] := by
-    simp only [AddsReturn]
-    refine ⟨?_, ?_, trivial⟩ <;> decide +kernel
-  rcases h _ _ _ hr rfl hv with h0 | ⟨l, _, ho⟩
-  · cases h0
-  · exact C12.npm_witness_not_ordered l ho
+/-- The statement holds (it was refuted before the repair of F-C14-latest-substr). -/
+theorem npm_ascending_statement : NpmAscendingStatement :=
+  fun ops _ _ hret hp hv => history_listing_npm ops hret hp hv
+
+/-- Regression of F-C14-latest-substr (fixed): adding `1.0.0 #notlatest` then `2.0.0` lists
+`[1.0.0, 2.0.0]` (it used to list `[2.0.0, 1.0.0]`); the history returns normally. The same
+history is replayed on the real code on every run (fixed finding's witness). -/
+theorem npm_regression_history :
+    AddsReturn LocalClient.new [.add C12.w1 [], .add C12.w2 []] ∧
+    versions (run LocalClient.new [.add C12.w1 [], .add C12.w2 []]).1 (pkP .npm) = .versions [C12.w1, C12.w2] := by
+  refine ⟨?_, by decide +kernel⟩
+  simp only [AddsReturn]
+  refine ⟨?_, ?_, trivial⟩ <;> decide +kernel
+
+/-- The old witness now satisfies the statement; the pre-repair listing `[2.0.0, 1.0.0]` would not
+(`C12.npm_witness_not_ordered`). -/
+example : ∃ l, l ~ [C12.w1, C12.w2] ∧ C12.NpmOrdered C12.exactLatest l [C12.w1, C12.w2] := by
+  rcases npm_ascending_statement _ _ _ npm_regression_history.1 rfl npm_regression_history.2 with h | h
+  · cases h
+  · exact h
 
 /-- Adding `4.1`, `4.1-jre`, `4.1.0.Beta1` lists them in that order although
 `4.1.0.Beta1 < 4.1` (finding F-C14-mvn-intrans). -/
@@ -554,7 +556,7 @@ example :
   Resolve.Client.{npmDepLess, sortDependencies, RequirementVersion.effName, DepType.isDevOnly},
   Resolve.Match.goSort, Bytes.toLowerAscii, Semver.cmpBytes; tie: op `seq` (reqs observations).
 * listing_*, history_listing_*: C12's theorems (see Props/C12.lean RESTS-ON).
-* refutations: kernel evaluation of `run` on the witness histories (through Semver.parse / vcompare,
+* refutation maven_ascending_statement_false, regression npm_regression_history: kernel evaluation of `run` on the witness histories (through Semver.parse / vcompare,
   hence Gen.SemverTables); tie: the witnesses are replayed on the real code on every run.
 -/
 
